@@ -53,10 +53,10 @@ Proof.
   apply IH. apply step_fst; auto.
 Qed.
 
-Lemma run_transparent : forall lv r z a b,
-  fst (run true r lv z a b) = fst (run false r lv z a b).
+Lemma run_transparent : forall lv r da db z a b,
+  fst (run true r da db lv z a b) = fst (run false r da db lv z a b).
 Proof.
-  induction lv as [|l lv IH]; intros r z a b; cbn [run].
+  induction lv as [|l lv IH]; intros r da db z a b; cbn [run].
   - unfold leaf_stmt. destruct a, b; reflexivity.
   - apply fold_step_fst; auto.
 Qed.
@@ -77,9 +77,9 @@ Proof.
     rewrite Hst, Hb. reflexivity.
 Qed.
 
-Lemma run_off_silent : forall lv r z a b, snd (run false r lv z a b) = [].
+Lemma run_off_silent : forall lv r da db z a b, snd (run false r da db lv z a b) = [].
 Proof.
-  induction lv as [|l lv IH]; intros r z a b; cbn [run].
+  induction lv as [|l lv IH]; intros r da db z a b; cbn [run].
   - unfold leaf_stmt. destruct a, b; reflexivity.
   - apply fold_step_off; auto.
 Qed.
@@ -187,11 +187,26 @@ Proof.
   - apply andb_true_iff in H. destruct H as [H _]. apply ssorted_SS; auto.
 Qed.
 
-Lemma iter_elems_spec l a b :
-  sorted_t a = true -> sorted_t b = true -> iter_elems l a b = spec_elems l a b.
+Lemma seq_SS : forall n st, StronglySorted Z.lt (map Z.of_nat (seq st n)).
+Proof.
+  induction n as [|n IH]; intros st; cbn [seq map]; constructor; auto.
+  rewrite Forall_forall. intros x Hx. apply in_map_iff in Hx. destruct Hx as [y [<- Hy]].
+  apply in_seq in Hy. lia.
+Qed.
+
+Lemma op_elems_sorted u sh d below t : sorted_t t = true -> ssortedP (op_elems u sh d below t).
+Proof.
+  intros H. unfold op_elems. destruct u.
+  - unfold ssortedP. rewrite map_map. cbn [fst]. rewrite map_id. apply seq_SS.
+  - unfold present. apply ssortedP_filter. apply sorted_t_elems; auto.
+Qed.
+
+Lemma iter_elems_spec l da db ba bb a b :
+  sorted_t a = true -> sorted_t b = true ->
+  iter_elems l da db ba bb a b = spec_elems l da db ba bb a b.
 Proof.
   intros Ha Hb. unfold iter_elems, spec_elems. destruct (la l && lb l); auto.
-  apply and_merge_spec; unfold present; apply ssortedP_filter; apply sorted_t_elems; auto.
+  apply and_merge_spec; apply op_elems_sorted; auto.
 Qed.
 
 (* where the yielded payloads come from *)
@@ -206,11 +221,11 @@ Proof.
   - intros H. apply IH in H. destruct H; split; [right|]; auto.
 Qed.
 
-Lemma spec_elems_In l a b c ta tb :
+Lemma spec_elems_In l da db ba bb a b c ta tb :
   la l || lb l = true ->
-  In (c, (ta, tb)) (spec_elems l a b) ->
-  (if la l then In (c, ta) (present 0 (elems a)) else ta = a) /\
-  (if lb l then In (c, tb) (present 0 (elems b)) else tb = b).
+  In (c, (ta, tb)) (spec_elems l da db ba bb a b) ->
+  (if la l then In (c, ta) (op_elems (ua l) (lshape l) da ba a) else ta = a) /\
+  (if lb l then In (c, tb) (op_elems (ub l) (lshape l) db bb b) else tb = b).
 Proof.
   unfold spec_elems. destruct (la l) eqn:Ea, (lb l) eqn:Eb; cbn [andb orb]; intros Hl;
     [| | |discriminate].
@@ -261,53 +276,56 @@ Proof. induction l as [|x l IH]; cbn [map sumZ fold_right]; [reflexivity|]. unfo
 (* ------------------------------------------------------------------ well-formed operands *)
 
 Definition op_ok (f : level -> bool) (lv : list level) (t : tree) : Prop :=
-  depth_ok (cntb f lv) t = true /\ sorted_t t = true /\ vals_ok t = true.
+  depth_ok (cntb f lv) t = true /\ sorted_t t = true.
 
-Lemma nonneg_vals_ok_child c s es :
-  nonneg (Node es) = true -> In (c, s) (present 0 es) -> vals_ok s = true.
+Lemma op_default_ok f lv d : op_ok f lv (op_default (existsb f lv) d).
 Proof.
-  cbn [nonneg]. intros Hn Hin. unfold present in Hin. apply filter_In in Hin.
-  destruct Hin as [Hin Hne]. rewrite forallb_forall in Hn. specialize (Hn _ Hin).
-  cbn [snd] in *. destruct s as [v|es']; cbn [vals_ok]; auto.
-  cbn [is_empty nonneg] in *. apply negb_true_iff in Hne. lia.
+  unfold op_ok, op_default, cntb. induction lv as [|l lv IH]; cbn [existsb filter].
+  - split; reflexivity.
+  - destruct (f l); cbn [orb length].
+    + split; reflexivity.
+    + exact IH.
 Qed.
 
-Lemma op_ok_down f l lv t :
+Lemma op_ok_down f l lv t u sh d :
   op_ok f (l :: lv) t ->
-  if f l then forall c s, In (c, s) (present 0 (elems t)) -> op_ok f lv s
+  if f l then forall c s, In (c, s) (op_elems u sh d (existsb f lv) t) -> op_ok f lv s
   else op_ok f lv t.
 Proof.
-  unfold op_ok, cntb. cbn [filter]. destruct (f l); [|tauto].
-  cbn [length]. intros [Hd [Hs Hv]] c s Hin.
-  destruct t as [v|es]; [discriminate|]. cbn [elems] in Hin.
-  assert (In (c, s) es) as Hin' by (unfold present in Hin; apply filter_In in Hin; tauto).
-  cbn [depth_ok sorted_t vals_ok] in *.
-  apply andb_true_iff in Hs. destruct Hs as [_ Hs].
-  rewrite forallb_forall in Hd, Hs.
-  repeat split.
-  - apply (Hd _ Hin').
-  - apply (Hs _ Hin').
-  - eapply nonneg_vals_ok_child; eauto.
+  unfold op_ok at 1, cntb. cbn [filter]. destruct (f l) eqn:Ef; [|unfold op_ok, cntb; tauto].
+  cbn [length]. intros [Hd Hs] c s Hin.
+  destruct t as [v|es]; [discriminate|]. cbn [depth_ok sorted_t] in *.
+  apply andb_true_iff in Hs. destruct Hs as [_ Hs]. rewrite forallb_forall in Hd, Hs.
+  assert (forall c' s', In (c', s') es -> op_ok f lv s') as Hch.
+  { intros c' s' Hi. split; [apply (Hd _ Hi) | apply (Hs _ Hi)]. }
+  unfold op_elems in Hin. destruct u.
+  - apply in_map_iff in Hin. destruct Hin as [c0 [Heq _]]. inversion Heq; subst. cbn [elems].
+    destruct (lookup c es) as [s'|] eqn:El.
+    + apply lookup_In in El. eapply Hch; eauto.
+    + apply op_default_ok.
+  - cbn [elems] in Hin. unfold present in Hin. apply filter_In in Hin. eapply Hch; apply Hin.
 Qed.
 
-Lemma spec_elems_ok l lv a b c ta tb :
+Lemma spec_elems_ok l lv da db a b c ta tb :
   la l || lb l = true ->
   op_ok la (l :: lv) a -> op_ok lb (l :: lv) b ->
-  In (c, (ta, tb)) (spec_elems l a b) -> op_ok la lv ta /\ op_ok lb lv tb.
+  In (c, (ta, tb)) (lv_elems da db l lv a b) -> op_ok la lv ta /\ op_ok lb lv tb.
 Proof.
-  intros Hl Ha Hb Hin. apply spec_elems_In in Hin; auto. destruct Hin as [H1 H2].
-  apply op_ok_down in Ha. apply op_ok_down in Hb.
+  intros Hl Ha Hb Hin. unfold lv_elems in Hin. apply spec_elems_In in Hin; auto.
+  destruct Hin as [H1 H2].
+  apply (op_ok_down _ _ _ _ (ua l) (lshape l) da) in Ha.
+  apply (op_ok_down _ _ _ _ (ub l) (lshape l) db) in Hb.
   destruct (la l), (lb l); subst; split; eauto.
 Qed.
 
 (* ------------------------------------------------------------------ counts of multiplies and updates *)
 
 Lemma run_cnt_leafs k : k = 0 \/ k = 2 ->
-  forall lv r z a b, forallb (fun l => la l || lb l) lv = true ->
+  forall da db lv r z a b, forallb (fun l => la l || lb l) lv = true ->
   op_ok la lv a -> op_ok lb lv b ->
-  cnt (is_cnt k) (snd (run true r lv z a b)) = spec_leafs lv a b.
+  cnt (is_cnt k) (snd (run true r da db lv z a b)) = spec_leafs da db lv a b.
 Proof.
-  intros Hk. induction lv as [|l lv IH]; intros r z a b Hlv Ha Hb.
+  intros Hk da db. induction lv as [|l lv IH]; intros r z a b Hlv Ha Hb.
   - cbn [run spec_leafs]. destruct Ha as [Ha _], Hb as [Hb _]. unfold cntb in *. cbn in Ha, Hb.
     destruct a as [va|]; [|discriminate]. destruct b as [vb|]; [|discriminate].
     unfold leaf_stmt, evs_if. cbn [snd]. rewrite !cnt_cons.
@@ -315,31 +333,31 @@ Proof.
       destruct Hk; subst k; reflexivity.
   - cbn [run spec_leafs]. cbn [forallb] in Hlv. apply andb_true_iff in Hlv. destruct Hlv as [Hl Hlv].
     assert (sorted_t a = true /\ sorted_t b = true) as [Hsa Hsb] by (unfold op_ok in *; tauto).
-    rewrite iter_elems_spec by auto.
-    assert (forall c ta tb, In (c, (ta, tb)) (spec_elems l a b) ->
-            forall z', cnt (is_cnt k) (snd (run true (r + 1) lv z' ta tb)) = spec_leafs lv ta tb) as Hel.
-    { intros c ta tb Hin z'. destruct (spec_elems_ok _ _ _ _ _ _ _ Hl Ha Hb Hin). apply IH; auto. }
-    clear IH. revert Hel. generalize (spec_elems l a b) as els.
+    rewrite iter_elems_spec by auto. fold (lv_elems da db l lv a b).
+    assert (forall c ta tb, In (c, (ta, tb)) (lv_elems da db l lv a b) ->
+            forall z', cnt (is_cnt k) (snd (run true (r + 1) da db lv z' ta tb)) = spec_leafs da db lv ta tb) as Hel.
+    { intros c ta tb Hin z'. destruct (spec_elems_ok _ _ _ _ _ _ _ _ _ Hl Ha Hb Hin). apply IH; auto. }
+    clear IH. revert Hel. generalize (lv_elems da db l lv a b) as els.
     intros els Hel.
     (* per-element form of fold_step_cnt *)
-    assert (forall st, cnt (is_cnt k) (snd (fold_left (step true r l (existsb lz lv) (run true (r + 1) lv)) els st))
+    assert (forall st, cnt (is_cnt k) (snd (fold_left (step true r l (existsb lz lv) (run true (r + 1) da db lv)) els st))
             = cnt (is_cnt k) (snd st)
-              + sumZ (map (fun el => spec_leafs lv (fst (snd el)) (snd (snd el))) els)) as Hf.
+              + sumZ (map (fun el => spec_leafs da db lv (fst (snd el)) (snd (snd el))) els)) as Hf.
     { induction els as [|[c [ta tb]] els IHe]; intros st; cbn [fold_left map sumZ fold_right]; [lia|].
       rewrite IHe by (intros; eapply Hel; right; eauto). cbn [fst snd].
-      assert (cnt (is_cnt k) (snd (step true r l (existsb lz lv) (run true (r + 1) lv) st (c, (ta, tb))))
-              = cnt (is_cnt k) (snd st) + spec_leafs lv ta tb) as ->; [|unfold sumZ; lia].
+      assert (cnt (is_cnt k) (snd (step true r l (existsb lz lv) (run true (r + 1) da db lv) st (c, (ta, tb))))
+              = cnt (is_cnt k) (snd st) + spec_leafs da db lv ta tb) as ->; [|unfold sumZ; lia].
       pose proof (Hel c ta tb (or_introl eq_refl)) as H1.
       unfold step. destruct (lz l).
       - destruct (lookup c (elems (fst st))) as [zc|].
-        + specialize (H1 zc). destruct (run true (r + 1) lv zc ta tb). cbn [snd] in *.
+        + specialize (H1 zc). destruct (run true (r + 1) da db lv zc ta tb). cbn [snd] in *.
           rewrite !cnt_app, H1. unfold evs_if. rewrite cnt_cons, cnt_nil.
           destruct Hk; subst k; cbn [is_cnt]; lia.
         + specialize (H1 (z_default (existsb lz lv))).
-          destruct (run true (r + 1) lv (z_default (existsb lz lv)) ta tb). cbn [snd] in *.
+          destruct (run true (r + 1) da db lv (z_default (existsb lz lv)) ta tb). cbn [snd] in *.
           rewrite !cnt_app, H1. unfold evs_if. rewrite cnt_cons, cnt_nil.
           destruct Hk; subst k; cbn [is_cnt]; lia.
-      - specialize (H1 (fst st)). destruct (run true (r + 1) lv (fst st) ta tb). cbn [snd] in *.
+      - specialize (H1 (fst st)). destruct (run true (r + 1) da db lv (fst st) ta tb). cbn [snd] in *.
         rewrite !cnt_app, H1. unfold evs_if. rewrite cnt_cons, cnt_nil.
         destruct Hk; subst k; cbn [is_cnt]; lia. }
     rewrite Hf. cbn [snd]. unfold evs_if. rewrite cnt_cons, cnt_nil.
@@ -371,23 +389,23 @@ Proof.
       rewrite !cnt_app, H1. reflexivity.
 Qed.
 
-Lemma run_cnt_use : forall lv r z a b q,
+Lemma run_cnt_use : forall da db lv r z a b q,
   forallb (fun l => la l || lb l) lv = true ->
   op_ok la lv a -> op_ok lb lv b ->
-  cnt (is_use q) (snd (run true r lv z a b))
-  = if Z.ltb q r then 0 else spec_bodies (Z.to_nat (q - r)) lv a b.
+  cnt (is_use q) (snd (run true r da db lv z a b))
+  = if Z.ltb q r then 0 else spec_bodies (Z.to_nat (q - r)) da db lv a b.
 Proof.
-  induction lv as [|l lv IH]; intros r z a b q Hlv Ha Hb.
+  intros da db. induction lv as [|l lv IH]; intros r z a b q Hlv Ha Hb.
   - cbn [run spec_bodies]. unfold leaf_stmt, evs_if.
     destruct a, b; cbn [snd]; try (destruct (Z.ltb q r); reflexivity).
     destruct (Z.eqb (leaf_val z) 0); destruct (Z.ltb q r); reflexivity.
   - cbn [run]. cbn [forallb] in Hlv. apply andb_true_iff in Hlv. destruct Hlv as [Hl Hlv].
     assert (sorted_t a = true /\ sorted_t b = true) as [Hsa Hsb] by (unfold op_ok in *; tauto).
-    rewrite iter_elems_spec by auto.
-    rewrite (fold_step_cnt_in (is_use q) r l (existsb lz lv) (run true (r + 1) lv)
+    rewrite iter_elems_spec by auto. fold (lv_elems da db l lv a b).
+    rewrite (fold_step_cnt_in (is_use q) r l (existsb lz lv) (run true (r + 1) da db lv)
                (fun ta tb => if Z.ltb q (r + 1) then 0
-                             else spec_bodies (Z.to_nat (q - (r + 1))) lv ta tb)).
-    2:{ intros c ta tb Hin z'. destruct (spec_elems_ok _ _ _ _ _ _ _ Hl Ha Hb Hin). apply IH; auto. }
+                             else spec_bodies (Z.to_nat (q - (r + 1))) da db lv ta tb)).
+    2:{ intros c ta tb Hin z'. destruct (spec_elems_ok _ _ _ _ _ _ _ _ _ Hl Ha Hb Hin). apply IH; auto. }
     cbn [snd]. unfold evs_if. rewrite !cnt_cons, !cnt_nil. cbn [is_use is_reg].
     destruct (Z.ltb_spec q r) as [Hlt|Hge].
     + rewrite (sumZ_map_ext _ (fun _ => 0)), sumZ_map_0; [lia|].
@@ -398,7 +416,7 @@ Proof.
         intros x _. destruct (Z.ltb_spec r (r + 1)); lia.
       * replace (Z.to_nat (q - r)) with (S (Z.to_nat (q - (r + 1)))) by lia.
         cbn [spec_bodies].
-        rewrite (sumZ_map_ext _ (fun el => spec_bodies (Z.to_nat (q - (r + 1))) lv
+        rewrite (sumZ_map_ext _ (fun el => spec_bodies (Z.to_nat (q - (r + 1))) da db lv
                                                     (fst (snd el)) (snd (snd el)))); [lia|].
         intros x _. destruct (Z.ltb_spec q (r + 1)); lia.
 Qed.
@@ -448,15 +466,16 @@ Proof.
     + destruct (body (fst st) ta tb). cbn [snd]. eexists. rewrite <- app_assoc. reflexivity.
 Qed.
 
-Lemma run_reg_first : forall lv r z a b q, reg_first q (snd (run true r lv z a b)).
+Lemma run_reg_first : forall da db lv r z a b q, reg_first q (snd (run true r da db lv z a b)).
 Proof.
-  induction lv as [|l lv IH]; intros r z a b q.
+  intros da db. induction lv as [|l lv IH]; intros r z a b q.
   - cbn [run]. unfold reg_first, leaf_stmt, evs_if. intros _.
     destruct a, b; cbn [snd]; try reflexivity.
     destruct (Z.eqb (leaf_val z) 0); reflexivity.
   - cbn [run]. destruct (Z.eq_dec q r) as [Heq|Hne].
     + subst q. unfold reg_first. intros H. exfalso.
-      destruct (fold_step_prefix r l (existsb lz lv) (run true (r + 1) lv) (iter_elems l a b)
+      destruct (fold_step_prefix r l (existsb lz lv) (run true (r + 1) da db lv)
+                  (iter_elems l da db (existsb la lv) (existsb lb lv) a b)
                   (z, evs_if true [ERegister r])) as [ext Hext].
       rewrite Hext in H. cbn [snd] in H. unfold evs_if in H.
       rewrite cnt_app, cnt_cons, cnt_nil in H. cbn [is_reg] in H. rewrite Z.eqb_refl in H.
@@ -465,196 +484,3 @@ Proof.
       cbn [snd]. unfold reg_first, evs_if. intros _. reflexivity.
 Qed.
 
-(* ------------------------------------------------------------------ the add rule *)
-
-Definition nzlf (es : fib) : Z := sumZ (map (fun ct => nzl (snd ct)) es).
-
-Lemma nzl_Node es : nzl (Node es) = nzlf es.
-Proof. reflexivity. Qed.
-
-Lemma nzlf_cons c t es : nzlf ((c, t) :: es) = nzl t + nzlf es.
-Proof. reflexivity. Qed.
-
-Lemma nzlf_replace c t es old :
-  lookup c es = Some old -> nzlf (z_replace c t es) = nzlf es - nzl old + nzl t.
-Proof.
-  induction es as [|[c' t'] es IH]; cbn [lookup z_replace]; [discriminate|].
-  destruct (Z.eqb c c'); intros H.
-  - inversion H; subst. rewrite !nzlf_cons. lia.
-  - rewrite !nzlf_cons, IH; auto. lia.
-Qed.
-
-Lemma nzlf_del c es old :
-  lookup c es = Some old -> nzlf (z_del c es) = nzlf es - nzl old.
-Proof.
-  induction es as [|[c' t'] es IH]; cbn [lookup z_del]; [discriminate|].
-  destruct (Z.eqb c c'); intros H.
-  - inversion H; subst. rewrite !nzlf_cons. lia.
-  - rewrite !nzlf_cons, IH; auto. lia.
-Qed.
-
-Lemma nzlf_insert c t es : nzlf (z_insert c t es) = nzlf es + nzl t.
-Proof.
-  induction es as [|[c' t'] es IH]; cbn [z_insert].
-  - rewrite !nzlf_cons. unfold nzlf. cbn. lia.
-  - destruct (Z.ltb c c'); rewrite !nzlf_cons; [|rewrite IH]; lia.
-Qed.
-
-Lemma forallb_replace (P : Z * tree -> bool) c t es :
-  forallb P es = true -> P (c, t) = true -> forallb P (z_replace c t es) = true.
-Proof.
-  induction es as [|[c' t'] es IH]; cbn [z_replace forallb]; auto.
-  intros H Hp. apply andb_true_iff in H. destruct H as [H1 H2].
-  destruct (Z.eqb c c'); cbn [forallb]; rewrite ?Hp, ?H1, ?H2, ?IH; auto.
-Qed.
-
-Lemma forallb_insert (P : Z * tree -> bool) c t es :
-  forallb P es = true -> P (c, t) = true -> forallb P (z_insert c t es) = true.
-Proof.
-  induction es as [|[c' t'] es IH]; cbn [z_insert forallb]; intros H Hp.
-  - rewrite Hp. reflexivity.
-  - apply andb_true_iff in H. destruct H as [H1 H2].
-    destruct (Z.ltb c c'); cbn [forallb]; rewrite ?Hp, ?H1, ?H2, ?IH; auto.
-Qed.
-
-Lemma forallb_del (P : Z * tree -> bool) c es :
-  forallb P es = true -> forallb P (z_del c es) = true.
-Proof.
-  induction es as [|[c' t'] es IH]; cbn [z_del forallb]; auto.
-  intros H. apply andb_true_iff in H. destruct H as [H1 H2].
-  destruct (Z.eqb c c'); cbn [forallb]; rewrite ?H1, ?H2, ?IH; auto.
-Qed.
-
-Definition zpre (lv : list level) (z : tree) : Prop :=
-  depth_ok (cntb lz lv) z = true /\ nonneg z = true.
-
-Lemma zpre_default lv : zpre lv (z_default (existsb lz lv)).
-Proof.
-  unfold zpre, z_default, cntb. induction lv as [|l lv IH]; cbn [existsb filter].
-  - split; reflexivity.
-  - destruct (lz l); cbn [orb length].
-    + split; reflexivity.
-    + exact IH.
-Qed.
-
-Lemma nzl_default b : nzl (z_default b) = 0.
-Proof. destruct b; reflexivity. Qed.
-
-Lemma zpre_node_inv l lv es :
-  lz l = true -> zpre (l :: lv) (Node es) ->
-  forallb (fun ct => depth_ok (cntb lz lv) (snd ct)) es = true
-  /\ forallb (fun ct => nonneg (snd ct)) es = true.
-Proof.
-  unfold zpre, cntb. cbn [filter]. intros ->. cbn [length depth_ok nonneg]. tauto.
-Qed.
-
-Lemma zpre_node_intro l lv es :
-  lz l = true ->
-  forallb (fun ct => depth_ok (cntb lz lv) (snd ct)) es = true ->
-  forallb (fun ct => nonneg (snd ct)) es = true ->
-  zpre (l :: lv) (Node es).
-Proof.
-  unfold zpre, cntb. cbn [filter]. intros ->. cbn [length depth_ok nonneg]. tauto.
-Qed.
-
-Lemma zpre_is_node l lv z : lz l = true -> zpre (l :: lv) z -> exists es, z = Node es.
-Proof.
-  unfold zpre, cntb. cbn [filter]. intros ->. cbn [length]. destruct z as [v|es].
-  - cbn [depth_ok]. intros [H _]; discriminate.
-  - eauto.
-Qed.
-
-Lemma zpre_skip l lv z : lz l = false -> (zpre (l :: lv) z <-> zpre lv z).
-Proof. unfold zpre, cntb. cbn [filter]. intros ->. tauto. Qed.
-
-Definition dadd (evs : list mev) : Z := cnt (is_cnt 2) evs - cnt (is_cnt 1) evs.
-
-Lemma dadd_app a b : dadd (a ++ b) = dadd a + dadd b.
-Proof. unfold dadd. rewrite !cnt_app. lia. Qed.
-
-Lemma run_z : forall lv r z a b,
-  forallb (fun l => la l || lb l) lv = true ->
-  op_ok la lv a -> op_ok lb lv b -> zpre lv z ->
-  zpre lv (fst (run true r lv z a b))
-  /\ dadd (snd (run true r lv z a b)) = nzl (fst (run true r lv z a b)) - nzl z.
-Proof.
-  induction lv as [|l lv IH]; intros r z a b Hlv Ha Hb Hz.
-  - cbn [run]. destruct Ha as [Had [_ Hav]], Hb as [Hbd [_ Hbv]], Hz as [Hzd Hzn].
-    unfold cntb in *. cbn [filter length] in *.
-    destruct a as [va|]; [|discriminate]. destruct b as [vb|]; [|discriminate].
-    destruct z as [vz|]; [|discriminate].
-    cbn [vals_ok nonneg] in *. unfold leaf_stmt, leaf_val, evs_if, zpre, cntb. cbn [fst snd filter length].
-    assert (0 < va * vb) by (apply Z.mul_pos_pos; lia).
-    split.
-    + cbn [depth_ok nonneg]. split; auto. lia.
-    + unfold dadd. cbn [nzl]. rewrite !cnt_cons.
-      destruct (Z.eqb_spec vz 0); [rewrite cnt_nil | rewrite !cnt_cons, cnt_nil];
-        cbn [is_cnt]; destruct (Z.eqb_spec (vz + va * vb) 0); cbn; lia.
-  - cbn [run]. cbn [forallb] in Hlv. apply andb_true_iff in Hlv. destruct Hlv as [Hl Hlv].
-    assert (sorted_t a = true /\ sorted_t b = true) as [Hsa Hsb] by (unfold op_ok in *; tauto).
-    rewrite iter_elems_spec by auto.
-    assert (forall c ta tb, In (c, (ta, tb)) (spec_elems l a b) ->
-            forall zc, zpre lv zc ->
-            zpre lv (fst (run true (r + 1) lv zc ta tb))
-            /\ dadd (snd (run true (r + 1) lv zc ta tb))
-               = nzl (fst (run true (r + 1) lv zc ta tb)) - nzl zc) as Hel.
-    { intros c ta tb Hin zc Hzc. destruct (spec_elems_ok _ _ _ _ _ _ _ Hl Ha Hb Hin).
-      apply IH; auto. }
-    clear IH Ha Hb Hsa Hsb. revert Hel. generalize (spec_elems l a b) as els. intros els Hel.
-    set (stp := step true r l (existsb lz lv) (run true (r + 1) lv)).
-    assert (forall st, zpre (l :: lv) (fst st) ->
-            zpre (l :: lv) (fst (fold_left stp els st))
-            /\ dadd (snd (fold_left stp els st)) - nzl (fst (fold_left stp els st))
-               = dadd (snd st) - nzl (fst st)) as Hf.
-    { induction els as [|[c [ta tb]] els IHe]; intros st Hst; cbn [fold_left]; [split; auto|].
-      pose proof (Hel c ta tb (or_introl eq_refl)) as H1.
-      assert (zpre (l :: lv) (fst (stp st (c, (ta, tb))))
-              /\ dadd (snd (stp st (c, (ta, tb)))) - nzl (fst (stp st (c, (ta, tb))))
-                 = dadd (snd st) - nzl (fst st)) as [Hs1 Hs2].
-      { unfold stp, step. destruct (lz l) eqn:Elz.
-        - destruct (zpre_is_node _ _ _ Elz Hst) as [zes Hzes]. rewrite Hzes in *. cbn [elems].
-          destruct (zpre_node_inv _ _ _ Elz Hst) as [Hzd Hzn].
-          destruct (lookup c zes) as [zc|] eqn:Elk.
-          + assert (zpre lv zc) as Hzc.
-            { apply lookup_In in Elk. rewrite forallb_forall in Hzd, Hzn.
-              split; [apply (Hzd _ Elk) | apply (Hzn _ Elk)]. }
-            specialize (H1 zc Hzc). destruct (run true (r + 1) lv zc ta tb) as [zc' e].
-            cbn [fst snd] in *. destruct H1 as [[Hd' Hn'] He].
-            rewrite !dadd_app. unfold evs_if.
-            assert (dadd [EUse r] = 0) as -> by reflexivity.
-            destruct (z_removed false zc') eqn:Erm.
-            * split.
-              -- apply zpre_node_intro; auto; apply forallb_del; auto.
-              -- rewrite !nzl_Node, (nzlf_del _ _ _ Elk).
-                 destruct zc' as [v|es']; cbn [z_removed andb] in Erm; [|discriminate].
-                 cbn [nzl] in *. rewrite Erm in *. lia.
-            * split.
-              -- apply zpre_node_intro; auto; apply forallb_replace; auto.
-              -- rewrite !nzl_Node, (nzlf_replace _ _ _ _ Elk). lia.
-          + pose proof (zpre_default lv) as Hzc.
-            specialize (H1 _ Hzc).
-            destruct (run true (r + 1) lv (z_default (existsb lz lv)) ta tb) as [zc' e].
-            cbn [fst snd] in *. destruct H1 as [[Hd' Hn'] He]. rewrite nzl_default in He.
-            rewrite !dadd_app. unfold evs_if.
-            assert (dadd [EUse r] = 0) as -> by reflexivity.
-            destruct (z_removed true zc') eqn:Erm.
-            * split; [exact Hst|].
-              assert (nzl zc' = 0) as Hz0.
-              { destruct zc' as [v|es']; cbn [z_removed andb] in Erm.
-                - cbn [nzl]. rewrite Erm. reflexivity.
-                - destruct es'; [reflexivity | discriminate]. }
-              lia.
-            * split.
-              -- apply zpre_node_intro; auto; apply forallb_insert; auto.
-              -- rewrite !nzl_Node, nzlf_insert. lia.
-        - assert (zpre lv (fst st)) as Hzc by (apply (zpre_skip _ _ _ Elz); auto).
-          specialize (H1 _ Hzc). destruct (run true (r + 1) lv (fst st) ta tb) as [z' e].
-          cbn [fst snd] in *. destruct H1 as [Hz' He]. split.
-          + apply (zpre_skip _ _ _ Elz); auto.
-          + rewrite !dadd_app. unfold evs_if. assert (dadd [EUse r] = 0) as -> by reflexivity. lia. }
-      destruct (IHe (fun c0 ta0 tb0 Hin => Hel c0 ta0 tb0 (or_intror Hin)) _ Hs1) as [Hr1 Hr2].
-      split; auto. lia. }
-    destruct (Hf (z, evs_if true [ERegister r]) Hz) as [Hr1 Hr2]. subst stp. split; auto.
-    unfold evs_if in *. cbn [fst snd] in Hr2.
-    assert (dadd [ERegister r] = 0) as Hd0 by reflexivity. lia.
-Qed.
